@@ -54,16 +54,17 @@ Print Assumptions c05_idle_times_sorted.
    before the last hand-back; every connection stored in a checkout was not closed before that request's
    Issue) and [Inv2] (pool/ProofsC05.v: the tracker's snapshot / key table / clock agree with the model;
    every idle entry (c, at) has at <= 1000000 + ci_idle_time c; a pair (r, c = ri_popx r) for which the
-   timeout clause would fail is dead: c has no handle left and r does not have it) *)
+   timeout clause would fail is dead: c has no handle left and r does not have it) and [Inv4] (hand-back
+   half of the first clause: a connection whose tracker record is closed before its last hand-back - which
+   only the Cancel stamp of a dropped checkout can produce - is dead and stored by no checkout; a live
+   request still has the non-multiplexed connection its Issue popped; uses the handle accounting of
+   pool/ProofsC02.v) *)
 Theorem c05_invariant : forall cfg ops,
   Inv3 cfg (final_mst cfg m0 ops (trace cfg ops)) (run cfg ops).
 Proof.
   intros cfg ops. unfold trace, run. generalize (Inv3_init cfg). generalize m0, init.
-  induction ops as [|o ops IH]; intros m s [HI HI2]; cbn [trace_from final_mst fold_left]; [split; assumption|].
-  apply IH.
-  pose proof (Inv_track cfg m o (observe (step cfg s o)) (step cfg s o) (G_step cfg m s o _ HI) eq_refl) as HI'.
-  split; [exact HI'|].
-  destruct o; try (apply step_plain; [exact I|exact HI2|exact HI']); [apply step_issue|apply step_tick]; assumption.
+  induction ops as [|o ops IH]; intros m s H; cbn [trace_from final_mst fold_left]; [exact H|].
+  apply IH. apply (proj2 (Inv3_step cfg m s o H)).
 Qed.
 Print Assumptions c05_invariant.
 
@@ -72,7 +73,7 @@ Print Assumptions c05_invariant.
    channel slots, held connections, hand-back tasks), and none if it does not exist *)
 Theorem c05_handles_linear : forall cfg ops c,
   W None (run cfg ops) c <= (if Nat.ltb c (List.length (conns (run cfg ops))) then 1 else 0).
-Proof. intros cfg ops c. destruct (c05_invariant cfg ops) as [_ H]. apply (v_lin _ _ _ H). Qed.
+Proof. intros cfg ops c. destruct (c05_invariant cfg ops) as (_ & H & _). apply (v_lin _ _ _ H). Qed.
 Print Assumptions c05_handles_linear.
 
 (* non-vacuity 1: the peer closes an idle connection (ConnClose 0 while connection 0 is parked); the next
